@@ -288,7 +288,11 @@ def literal_check(case, ctx):
     for txt, idx in (("1.0", 14), ("1.0f", 13), ("1.0F", 13), ("1.0l", 15), ("1.0L", 15), ("1e5", 14), ("0x1p3", 14), ("0x1p3f", 13), (".5", 14), ("5.", 14),
                      ("'a'", 7), ("'\\377'", 7), ("L'a'", wch), ("u'a'", 6), ("U'a'", 8), ("u8'a'", 4), ("\"s\"[0]", 2), ("L\"s\"[0]", wch), ("u\"s\"[0]", 6),
                      ("U\"s\"[0]", 8), ("u8\"s\"[0]", 4), ("sizeof 1", 10), ("_Alignof(int)", 10), ("(char)1", 2), ("(short)1", 5), ("(_Bool)1", 1),
-                     ("true", 1), ("false", 1)):
+                     ("true", 1), ("false", 1),
+                     # adjacent literals: the encoding prefix of any token of the run applies to the whole string (6.4.5p5)
+                     ("(L\"a\" \"b\")[0]", wch), ("(\"a\" L\"b\")[0]", wch), ("(u\"a\" \"b\")[0]", 6), ("(\"a\" u\"b\" \"c\")[0]", 6), ("(U\"x\" \"y\")[0]", 8),
+                     ("(\"x\" \"y\" U\"z\")[0]", 8), ("(u8\"a\" \"b\")[0]", 4), ("(\"a\" \"b\")[0]", 2), ("(L\"a\" \"b\" L\"c\")[0]", wch),
+                     ("sizeof(L\"a\" \"b\") == 3 * sizeof(L'a')", 7), ("sizeof(\"a\" u\"b\" \"c\") == 8", 7)):
         lines.append("int k%d = _Generic(%s, %s);" % (i, txt, GLIST))
         probes.append(("k%d" % i, idx, txt, "literal", None, None, txt.startswith("u8")))
         i += 1
